@@ -1,6 +1,7 @@
 import SakuraVerif.Spec.Core
 import SakuraVerif.Gen.Consts
 import SakuraVerif.Lemmas.ExecRefine
+import SakuraVerif.Lemmas.LexPrint
 /-! # C03 (T0) — defaults, clamps and single-command laws of the core note language
 
 `Spec.Core.sem` is the denotational semantics the real compiler is compared with on every run.
@@ -83,5 +84,37 @@ example : Ex2.cwfL demoProg := by
   simp [demoProg, Ex2.cwfL, Ex2.cwf, Ex2.noteWF, Ex2.lenOK, Ex2.simple, Len.isDigit, Len.render, Len.segs, Lx.intMin]
 example : (Ex2.exec 1000 3 (Ex2.compileL demoProg) {}).map (fun s => (Ex2.abs s).tr.map (fun t => (t.tp, t.ev))) =
     some ((semL demoProg St.init).tr.map (fun t => (t.tp, t.ev))) := by decide
+
+/-! ## from the text to the semantics, inside the model (T2)
+
+`Lp.printKL` writes a program in a canonical layout; `Lx.lex` is the literal model of `lexer::lex` (tied to the code by the
+`lexer` stream; the printed texts themselves are also lexed by the real lexer on every run, stream `print`).  For every
+program of the printable fragment — notes with all parameters, rests, `l o v q t`, `< > ( )`, loops with `:` nested to any
+depth — the model lexer reads the text back as the compiled token list with no error, and the model runner then yields
+the state the semantics prescribes. -/
+
+theorem C03_lex_print (cs : List Cmd) (hp : Lp.pwfL cs) : Lx.lex 96 (Lp.printKL cs []) 0 = some ⟨Ex2.compileL cs, []⟩ :=
+  Lp.lex_print cs hp
+
+theorem C03_text_to_semantics (cs : List Cmd) (hp : Lp.pwfL cs) (hw : Ex2.cwfL cs) :
+    ∃ F0, ∀ F, F0 ≤ F → ∃ o s', Lx.lex 96 (Lp.printKL cs []) 0 = some o ∧ o.errs = [] ∧
+      Ex2.exec F (Ex2.depthL cs) o.toks {} = some s' ∧ Ex2.abs s' = semL cs St.init := by
+  obtain ⟨F0, h⟩ := Ex2.exec_refines_sem_init cs hw
+  refine ⟨F0, fun F hF => ?_⟩
+  obtain ⟨s', h1, h2⟩ := h F hF
+  exact ⟨_, s', Lp.lex_print cs hp, rfl, h1, h2⟩
+
+-- non-vacuity: a nested-loop program inside both fragments; its printed text and the model lexer's answer
+def demoText : List Cmd :=
+  [.setL (some ⟨⟨false, false, [56], 0⟩, []⟩), .setO 4,
+   .loop 2 [.note 0 1 false none (some 80) none none (some 5), .loop 3 [.rest none 1, .octRel 1] true [.velRel (-1)]] true [.setQ 50],
+   .note 11 (-1) true (some ⟨⟨true, false, [57, 54], 0⟩, [(94, ⟨false, false, [52], 1⟩)]⟩) none (some 127) (some (-3)) none]
+
+example : Lp.pwfL demoText ∧ Ex2.cwfL demoText := by
+  constructor
+  · simp [demoText, Lp.pwfL, Lp.pwf, Ex2.lenOK, Lp.LenHeadOK, Ex2.lenText, Len.isDigit, Len.render, Len.segs, Len.PartSyn.wf]
+  · simp [demoText, Ex2.cwfL, Ex2.cwf, Ex2.noteWF, Ex2.lenOK, Len.isDigit, Len.render, Len.segs, Len.PartSyn.wf, Lx.intMin]
+-- (the printed text of `demoText` is "l8 o4 [2 c+,80,,,5 [3 r > : ( ] : q50 ] b-*%96^4.,,127,-3, "; texts are produced and
+--  fed to the real lexer by the `print` stream on every run)
 
 end Sakura.Props.C03
